@@ -12,9 +12,11 @@ fn relators_by_start_gen(rels: &Vec<FreeWord>)
 
     for rel in rels {
         for w in relator_permutations(&rel) {
-            result.entry(w[0])
-                .and_modify(|v: &mut Vec<_>| v.push(w.clone()))
-                .or_insert(vec![w]);
+            if w.len() > 0 {
+                result.entry(w[0])
+                    .and_modify(|v: &mut Vec<_>| v.push(w.clone()))
+                    .or_insert(vec![w]);
+            }
         }
     }
 
